@@ -306,6 +306,13 @@ func c38cBuild(env *c38qEnv, s c38cScenario) vsched.Scenario {
 				}
 
 				outcome = strings.Join(xs, "|")
+
+				// with a cleaner thread: how many calls had returned when the tick ended (calls before and after it must both occur)
+				for k, o := range obs {
+					if o.call.kind == "C" {
+						outcome += fmt.Sprintf("|calls-returned-before-the-tick-ended=%d", k)
+					}
+				}
 			}
 
 			byPos := map[string][]c38cObs{}
@@ -449,6 +456,15 @@ func TestVerifC38Conc(t *testing.T) {
 
 	r.Set("conc_preemption_bound", bound)
 
+	// the cleaner thread shares no lock with the maker's callers (its interleavings are not pruned by the maker's mutex):
+	// the same bound would need > 10^5 executions per scenario
+	cbound := vlib.Pick(r, 2, 3)
+	if cbound > bound {
+		cbound = bound
+	}
+
+	r.Set("conc_preemption_bound_with_cleaner_thread", cbound)
+
 	env := c38qNewEnv(t)
 	scs := c38cScenarios()
 	r.Set("conc_scenarios_enumerated", len(scs))
@@ -491,7 +507,12 @@ func TestVerifC38Conc(t *testing.T) {
 			continue
 		}
 
-		res := vsched.Explore(vsched.Config{Name: id, Bound: bound, Build: build, Expired: r.Expired, MaxFound: 2, Horizon: 5000})
+		sbound := bound
+		if s.window > 0 {
+			sbound = cbound
+		}
+
+		res := vsched.Explore(vsched.Config{Name: id, Bound: sbound, Build: build, Expired: r.Expired, MaxFound: 2, Horizon: 5000})
 		if res.EngineError != "" {
 			panic("engine error in " + id + ": " + res.EngineError)
 		}
@@ -503,6 +524,8 @@ func TestVerifC38Conc(t *testing.T) {
 
 		if res.Capped != "" {
 			r.Cap(res.Capped)
+		} else if s.window > 0 {
+			r.Min("conc_preemption_bound_completed_with_cleaner_thread", int64(res.BoundCompleted))
 		} else {
 			r.Min("conc_preemption_bound_completed", int64(res.BoundCompleted))
 		}
